@@ -177,7 +177,7 @@ func (w *World) defValNN(t model.TypeRef, key string, args map[string]interface{
 		case "ID":
 			return fmt.Sprintf("id%d", hv%1000)
 		default:
-			return fmt.Sprintf("c%d", hv%1000)
+			return CustomParse(fmt.Sprintf("c%d", hv%1000)) // internal value of a custom scalar
 		}
 	case model.KEnum:
 		return td.Values[int(hv)%len(td.Values)].InternalGo()
@@ -269,9 +269,9 @@ func SerializeLeaf(s *model.Schema, typeName string, raw interface{}) (interface
 		}
 		return nil, false
 	}
-	// custom scalar: serialises strings with a tag
-	if v, ok := raw.(string); ok {
-		return "S:" + v, true
+	// custom scalar: internal values are "P:"+external form; anything else has no serialisation
+	if v, ok := raw.(string); ok && strings.HasPrefix(v, "P:") {
+		return v[2:], true
 	}
 	return nil, false
 }
